@@ -27,12 +27,12 @@ type list = []interface{}
 
 // caseIn is the complete input of one case; a case is a pure function of it.
 type caseIn struct {
-	Stable  string                            `json:"stableService"`
-	Canary  string                            `json:"canaryService"`
-	Refs    []v1beta1.ObjectRef               `json:"refs"`
-	Objects []obj                             `json:"objects"` // parallel to Refs, as the user created them
-	Scripts map[string]string                 `json:"configMapScripts,omitempty"`
-	Steps   []v1beta1.TrafficRoutingStrategy  `json:"steps"`
+	Stable  string                           `json:"stableService"`
+	Canary  string                           `json:"canaryService"`
+	Refs    []v1beta1.ObjectRef              `json:"refs"`
+	Objects []obj                            `json:"objects"` // parallel to Refs, as the user created them
+	Scripts map[string]string                `json:"configMapScripts,omitempty"`
+	Steps   []v1beta1.TrafficRoutingStrategy `json:"steps"`
 	// BigInts: the generator put an integer beyond 2^53 somewhere (only for the signature)
 	BigInts bool `json:"-"`
 }
